@@ -1236,6 +1236,8 @@ impl CommandExecutor for DrawExecutor {
                     }
                     _ => return Err(anyhow::anyhow!("SetResolution unknown/unsupported argument: {}", parameters[1])),
                 }
+                let res = self.get_resolution();
+                self.screen.resize((res.width * res.height) as usize, 1);
 
                 Ok(CallbackAction::NoUpdate)
             }
